@@ -111,10 +111,7 @@ def bath_of(nm, kind):
         return oq.Bath(0.5 * M.SZ, oq.PowerLawSD(alpha=0.25 * s, zeta=1.0, cutoff=3.0, cutoff_type="exponential",
                                                  temperature=0.4))
     if nm == "B":
-        c, sn = np.cos(0.6), np.sin(0.6)
-        v = np.array([[c, -sn, 0], [sn, c, 0], [0, 0, 1]], dtype=complex)
-        w = np.array([[1, 0, 0], [0, np.cos(0.4), -np.sin(0.4)], [0, np.sin(0.4), np.cos(0.4)]], dtype=complex)
-        v = v @ w
+        v = M.generic_unitary(3, 4)                                       # complex, non-symmetric
         op = v @ np.diag([1.0, 0.2, -0.7]).astype(complex) @ v.conj().T     # non-diagonal, non-degenerate
         return oq.Bath(op, oq.PowerLawSD(alpha=0.2 * s, zeta=1.0, cutoff=2.5, cutoff_type="gaussian", temperature=0.0))
     return oq.Bath(0.5 * M.SX, oq.PowerLawSD(alpha=0.15 * s, zeta=3.0, cutoff=4.0, cutoff_type="exponential",
@@ -539,8 +536,13 @@ def run(tier, seed):
 
     maxrel = {}          # check name -> (max dev / tol)
     maxdev = {}
+    failing = {}
 
     def note(name, dev, tol):
+        """head-room statistics over the comparisons that hold (violating ones are reported as violations)"""
+        if dev > tol:
+            failing[name] = failing.get(name, 0) + 1
+            return
         maxdev[name] = max(maxdev.get(name, 0.0), dev)
         maxrel[name] = max(maxrel.get(name, 0.0), dev / tol)
 
@@ -570,9 +572,10 @@ def run(tier, seed):
         tol_tr = C_TRUNC * c["epsrel"] * c["n"]
         note("x_state(trunc)", r["x_state_dev"], tol_tr)
         note("x_field(trunc)", r["x_field_dev"], tol_tr)
-        note("mft_heun", r["mft_heun_dev"], TOL_HEUN * c["n"])
-        if "mft_closed_dev" in r:
-            note("mft_closed", r["mft_closed_dev"], TOL_HEUN * c["n"])
+        for tag in ("mft", "ptroute"):
+            note(tag + "_heun", r[tag + "_heun_dev"], TOL_HEUN * (c["n"] + 1))
+            if tag + "_closed_dev" in r:
+                note(tag + "_closed", r[tag + "_closed_dev"], TOL_HEUN * (c["n"] + 1))
         if "recF_dev" in r:
             note("recF", r["recF_dev"], 1e-12)
         if "dec_tempo_dev" in r:
@@ -658,6 +661,7 @@ def run(tier, seed):
         "worst_check": wname,
         "max_dev_by_check": maxdev,
         "max_dev_over_tol_by_check": maxrel,
+        "comparisons_over_tolerance_by_check": failing,
         "min_effect_sizes": min_eff,
         "cases_with_bath_influence_gt_0.02": n_bath_active,
         "cases_with_field_feedback_gt_0.01": n_feedback_active,
